@@ -24,6 +24,8 @@ Round 4: (R8-buffer-per-pack) Packet.pack hands pack_impl a buffer made for that
 Round 5: asserts are read as python -O reads them; the slot bisect_left with a successor test
 blind to the successor's length; iterating the index list in tobytes is a violation when
 insert() lets the index repeat a position.
+
+Round 6: both bisects used and the chunk at the position compared with neither neighbour.
 """
 import ast
 
